@@ -23,6 +23,10 @@ pub enum Class {
     Oversize,
     Tiny,
     Valid,
+    /// A well-formed error message whose text is long (up to ~700 bytes) valid UTF-8: ASCII up to
+    /// a chosen offset, then 2/3/4-byte characters, so that a character straddles any byte offset
+    /// a receiver might cut or inspect at.
+    LongText,
 }
 
 fn count_nodes(v: &B) -> usize {
@@ -250,7 +254,8 @@ impl Hostile {
     pub fn datagram(&self, rng: &mut ChaCha8Rng) -> (Vec<u8>, Class) {
         let base = gen::krpc(rng).to_value();
         let class = match rng.gen_range(0..100) {
-            0..=17 => Class::HugeLength,
+            0..=13 => Class::HugeLength,
+            14..=17 => Class::LongText,
             18..=29 => Class::IntLimit,
             30..=44 => Class::Nesting,
             45..=56 => Class::TypeConfusion,
@@ -370,6 +375,16 @@ impl Hostile {
                 opts.choose(rng).unwrap().to_vec()
             }
             Class::Valid => base.encode(),
+            Class::LongText => {
+                let k = if rng.gen_bool(0.7) { rng.gen_range(0..=130) } else { rng.gen_range(0..=600) };
+                let mut text: String = (0..k).map(|_| (b'a' + rng.gen_range(0..26u8)) as char).collect();
+                let wide = *["é", "ß", "日", "語", "\u{1F600}", "\u{10FFFF}"].choose(rng).unwrap();
+                let total = k + rng.gen_range(4..=120);
+                while text.len() < total {
+                    text.push_str(wide);
+                }
+                crate::refcodec::Krpc::error(gen::tid(rng), rng.gen_range(0..=255), &text).encode()
+            }
         }
     }
 
